@@ -117,8 +117,9 @@ Definition step_track (cols : list colspec) (colids : list str) (k : track) (s :
       | None => mkTrack w' (tk_dirty k) (tk_pending k)
       end
   | SUnset r =>
+      (* the row leaves every set, so no sorted version can be stale because of it any more *)
       mkTrack w' (upd (tk_dirty k) r (match tbl_get (w_tbl w) r with Some _ => true | None => false end))
-              (tk_pending k)
+              (upd (tk_pending k) r (fun _ => false))
   | SReset r s0 =>
       match cells_of colids (w_tbl w) r with
       | Some _ => mkTrack w' (tk_dirty k)
@@ -164,3 +165,453 @@ Section Inv.
   Definition inv (k : track) : Prop :=
     lm_inv cols (w_idx (tk_world k)) /\ tbl_ok (w_tbl (tk_world k)) /\ synced k /\ cache_inv k.
 End Inv.
+
+Section InvFacts.
+  Variables (cols : list colspec) (colids : list str).
+
+  Definition cinv (p : Z -> sortspec -> bool) (t : table) (bw : dict key (bin Z)) : Prop :=
+    forall key b s rows, dget vals_eqb bw key = Some b -> cache_get (cache b) s = Some rows ->
+      sort_rows t s (items b) = Some rows \/
+      exists r, In r (items b) /\
+        (p r s = true \/ memb vals_eqb key (keys_of_row cols colids t r) = false).
+
+  Lemma cache_inv_cinv : forall k, cache_inv cols colids k <->
+    cinv (tk_pending k) (w_tbl (tk_world k)) (bwd (w_idx (tk_world k))).
+  Proof. intros. reflexivity. Qed.
+
+  (* index maintenance that leaves a bin alone or clears its cache keeps the cache invariant *)
+  Lemma cinv_soc : forall p t bw bw', cinv p t bw -> stable_or_cleared vals_eqb bw bw' -> cinv p t bw'.
+  Proof.
+    intros p t bw bw' H S key b s rows Hg Hc.
+    destruct (S key) as [[Hi Hca]|Hcl].
+    - unfold items_of, cache_of in Hi, Hca. rewrite Hg in Hi, Hca.
+      destruct (dget vals_eqb bw key) as [b0|] eqn:G0.
+      + rewrite Hi. apply (H key b0 s rows G0). now rewrite <- Hca.
+      + rewrite Hca in Hc. discriminate.
+    - unfold cache_of in Hcl. rewrite Hg in Hcl. rewrite Hcl in Hc. discriminate.
+  Qed.
+
+  Lemma cells_of_set_other : forall t r d r', Z.eqb r r' = false -> cells_of colids (tbl_set t r d) r' = cells_of colids t r'.
+  Proof. intros. unfold cells_of. now rewrite tbl_get_set, H. Qed.
+  Lemma cells_of_del_other : forall t r r', Z.eqb r r' = false -> cells_of colids (tbl_del t r) r' = cells_of colids t r'.
+  Proof. intros. unfold cells_of. now rewrite tbl_get_del, H. Qed.
+  Lemma cells_of_del_same : forall t r, cells_of colids (tbl_del t r) r = None.
+  Proof. intros. unfold cells_of. now rewrite tbl_get_del, Z.eqb_refl. Qed.
+
+  Lemma sort_values_get : forall t t' s r, tbl_get t r = tbl_get t' r -> sort_values t s r = sort_values t' s r.
+  Proof. induction s as [|c s IH]; intros r H; cbn; [reflexivity|]. now rewrite H, (IH r H). Qed.
+
+  Lemma in_items_neq : forall (l : list Z) r, ~ In r l -> forall r', In r' l -> Z.eqb r r' = false.
+  Proof. intros l r N r' H. destruct (Z.eqb_spec r r'); [subst; contradiction|reflexivity]. Qed.
+
+  (* a table change at row r: versions of sets that do not contain r stay valid, the others are excused *)
+  Lemma cinv_table_change : forall p p' t t' bw r,
+    cinv p t bw ->
+    (forall r', Z.eqb r r' = false -> tbl_get t' r' = tbl_get t r') ->
+    (forall r' s, Z.eqb r r' = false -> p r' s = true -> p' r' s = true) ->
+    ((forall s, p' r s = true) \/ cells_of colids t' r = None) ->
+    cinv p' t' bw.
+  Proof.
+    intros p p' t t' bw r H Ht Hp Hr key b s rows Hg Hc.
+    destruct (in_dec Z.eq_dec r (items b)) as [Hin|Hnin].
+    - right. exists r. split; [exact Hin|]. destruct Hr as [Hr|Hr]; [left; apply Hr|right].
+      unfold keys_of_row. now rewrite Hr.
+    - pose proof (in_items_neq (items b) r Hnin) as Hne.
+      destruct (H key b s rows Hg Hc) as [Hs|[r0 [Hin0 Hex]]].
+      + left. rewrite <- Hs. apply sort_rows_ext. intros r' Hr'. apply sort_values_get. apply Ht. auto.
+      + right. exists r0. split; [exact Hin0|]. destruct Hex as [Hex|Hex]; [left; apply Hp; auto|right].
+        unfold keys_of_row, cells_of in *. now rewrite (Ht r0 (Hne r0 Hin0)).
+  Qed.
+End InvFacts.
+
+(* ---- changes that touch only the sorted versions ------------------------------------------ *)
+
+Lemma cache_pop_idem : forall c s, cache_pop (cache_pop c s) s = cache_pop c s.
+Proof.
+  intros c s. unfold cache_pop. induction c as [|[s' l] c IH]; cbn; [reflexivity|].
+  destruct (spec_eqb s' s) eqn:E; cbn; [exact IH|]. rewrite E. cbn. now rewrite IH.
+Qed.
+
+Lemma cache_get_pop : forall c s s', cache_get (cache_pop c s) s' = if spec_eqb s s' then None else cache_get c s'.
+Proof.
+  intros c s s'. unfold cache_pop. induction c as [|[s0 l] c IH]; cbn.
+  - now destruct (spec_eqb s s').
+  - destruct (spec_eqb s0 s) eqn:E; cbn.
+    + apply spec_eqb_eq in E. subst s0. rewrite IH. destruct (spec_eqb s s'); reflexivity.
+    + rewrite IH. destruct (spec_eqb s0 s') eqn:E1; [|reflexivity].
+      apply spec_eqb_eq in E1. subst s0. destruct (spec_eqb s s') eqn:E2; [|reflexivity].
+      apply spec_eqb_eq in E2. subst s'. assert (X : spec_eqb s s = true) by now apply spec_eqb_eq. congruence.
+Qed.
+
+Lemma pop_each_get : forall ks bw s k, dget vals_eqb (pop_each bw ks s) k =
+  match dget vals_eqb bw k with
+  | Some b => Some (mkBin (items b) (if memb vals_eqb k ks then cache_pop (cache b) s else cache b))
+  | None => None
+  end.
+Proof.
+  induction ks as [|k0 ks IH]; intros bw s k; cbn [pop_each memb].
+  - destruct (dget vals_eqb bw k) as [[it ca]|]; reflexivity.
+  - rewrite IH. destruct (vals_eqb k0 k) eqn:E.
+    + rewrite (dget_congr vals_eqb key_equiv bw k0 k E).
+      destruct (dget vals_eqb bw k) as [b|] eqn:G.
+      * rewrite (dget_dset vals_eqb key_equiv), E. cbn [items cache].
+        destruct (memb vals_eqb k ks); [now rewrite cache_pop_idem|reflexivity].
+      * now rewrite G.
+    + destruct (dget vals_eqb bw k0) as [b0|]; [|reflexivity].
+      now rewrite (dget_dset vals_eqb key_equiv), E.
+Qed.
+
+(* a new backward dictionary with the same keys and the same sets *)
+Definition same_sets (bw bw' : dict key (bin Z)) : Prop :=
+  forall k, match dget vals_eqb bw k, dget vals_eqb bw' k with
+            | Some b, Some b' => items b = items b'
+            | None, None => True
+            | _, _ => False
+            end.
+
+Lemma lm_inv_same_sets : forall cols m bw', lm_inv cols m -> same_sets (bwd m) bw' ->
+  lm_inv cols (mkTwm (fwd m) bw').
+Proof.
+  intros cols m bw' [Wf [[Wn [Ws Wh]] C]] S.
+  assert (Hi : forall k, items_of vals_eqb bw' k = items_of vals_eqb (bwd m) k).
+  { intros k. unfold items_of. specialize (S k).
+    destruct (dget vals_eqb (bwd m) k), (dget vals_eqb bw' k); try contradiction; auto. }
+  assert (Hk : forall k, has_key vals_eqb bw' k = has_key vals_eqb (bwd m) k).
+  { intros k. unfold has_key. specialize (S k).
+    destruct (dget vals_eqb (bwd m) k), (dget vals_eqb bw' k); try contradiction; auto. }
+  split; [exact Wf|split; [split; [|split]|]]; cbn [fwd bwd].
+  - intros k. rewrite Hi. apply Wn.
+  - intros X. discriminate.
+  - intros k. rewrite Hk. apply Wh.
+  - intros l r. unfold fr, br, rel in *. cbn [fwd bwd]. rewrite Hi. apply C.
+Qed.
+
+Lemma same_sets_pop : forall bw ks s, same_sets bw (pop_each bw ks s).
+Proof.
+  intros bw ks s k. rewrite pop_each_get. destruct (dget vals_eqb bw k); [reflexivity|exact I].
+Qed.
+
+Lemma same_sets_dset : forall bw k b c, dget vals_eqb bw k = Some b ->
+  same_sets bw (dset vals_eqb bw k (mkBin (items b) c)).
+Proof.
+  intros bw k b c H k'. rewrite (dget_dset vals_eqb key_equiv). destruct (vals_eqb k k') eqn:E.
+  - rewrite <- (dget_congr vals_eqb key_equiv bw k k' E), H. reflexivity.
+  - destruct (dget vals_eqb bw k'); [reflexivity|exact I].
+Qed.
+
+(* ---- every step keeps the invariant ------------------------------------------------------- *)
+
+Section Steps.
+  Variables (cols : list colspec) (colids : list str).
+  Notation inv := (inv cols colids).
+  Notation cinv := (cinv cols colids).
+
+  Ltac simp_inv := unfold LookupWorld_proofs.inv, synced, cache_inv in *;
+    cbn [tk_world tk_dirty tk_pending w_tbl w_idx step_track step_world fst snd] in *.
+
+  Lemma keys_of_row_cells : forall t r cells, cells_of colids t r = Some cells ->
+    keys_of_row cols colids t r = keys_of cols cells.
+  Proof. intros. unfold keys_of_row. now rewrite H. Qed.
+
+  Lemma inv_write : forall k r d, inv k -> inv (step_track cols colids k (SWrite r d)).
+  Proof.
+    intros [[t m] dd p] r d HI. simp_inv. destruct HI as [I [T [S C]]].
+    split; [exact I|split; [apply tbl_ok_set; exact T|split]].
+    - intros r' Hd key. unfold upd in Hd. destruct (Z.eqb r r') eqn:E; [discriminate|].
+      rewrite (S r' Hd key). unfold keys_of_row. now rewrite (cells_of_set_other colids t r d r' E).
+    - apply (cinv_table_change cols colids p _ t _ (bwd m) r C).
+      + intros r' E. now rewrite tbl_get_set, E.
+      + intros r' s E H. unfold upd. now rewrite E.
+      + left. intros s. unfold upd. now rewrite Z.eqb_refl.
+  Qed.
+
+  Lemma inv_delete : forall k r, inv k -> inv (step_track cols colids k (SDelete r)).
+  Proof.
+    intros [[t m] dd p] r HI. simp_inv. destruct HI as [I [T [S C]]].
+    split; [exact I|split; [apply tbl_ok_del; exact T|split]].
+    - intros r' Hd key. unfold upd in Hd. destruct (Z.eqb r r') eqn:E; [discriminate|].
+      rewrite (S r' Hd key). unfold keys_of_row. now rewrite (cells_of_del_other colids t r r' E).
+    - apply (cinv_table_change cols colids p p t _ (bwd m) r C).
+      + intros r' E. now rewrite tbl_get_del, E.
+      + auto.
+      + right. apply cells_of_del_same.
+  Qed.
+
+  Lemma inv_update : forall k r, inv k -> inv (step_track cols colids k (SUpdate r)).
+  Proof.
+    intros [[t m] dd p] r HI. simp_inv. destruct HI as [I [T [S C]]]. unfold cells_of in *.
+    destruct (tbl_get t r) as [d|] eqn:G; [|simp_inv; exact (conj I (conj T (conj S C)))].
+    destruct (row_cells d colids) as [cells|] eqn:RC; [|simp_inv; exact (conj I (conj T (conj S C)))].
+    simp_inv. destruct (update_record_spec cols m r cells I) as [I' [B R]].
+    split; [exact I'|split; [exact T|split]].
+    - intros r' Hd key. rewrite R. unfold upd in Hd. destruct (Z.eqb r r') eqn:E.
+      + apply Z.eqb_eq in E. subst r'. unfold keys_of_row, cells_of. now rewrite G, RC.
+      + apply S. exact Hd.
+    - eapply cinv_soc; [exact C|exact B].
+  Qed.
+
+  Lemma inv_unset : forall k r, inv k -> inv (step_track cols colids k (SUnset r)).
+  Proof.
+    intros [[t m] dd p] r HI. simp_inv. destruct HI as [I [T [S C]]].
+    destruct (remove_row_id_spec cols m r I) as [I' [B R]].
+    split; [exact I'|split; [exact T|split]].
+    - intros r' Hd key. rewrite R. unfold upd in Hd. destruct (Z.eqb r r') eqn:E.
+      + apply Z.eqb_eq in E. subst r'. unfold keys_of_row, cells_of.
+        destruct (tbl_get t r); [discriminate|reflexivity].
+      + apply S. exact Hd.
+    - pose proof (cinv_soc cols colids p t _ _ C B) as C'.
+      intros key b s rows Hg Hc. destruct (C' key b s rows Hg Hc) as [Hs|[r0 [Hin Hex]]]; [left; exact Hs|right].
+      exists r0. split; [exact Hin|]. destruct Hex as [Hp|Hk]; [left|right; exact Hk].
+      unfold upd. destruct (Z.eqb r r0) eqn:E; [|exact Hp]. exfalso.
+      apply Z.eqb_eq in E. subst r0.
+      assert (X : mrel (fst (remove_row_id cols m r)) r key = true).
+      { rewrite <- (key_rows_mrel cols _ r key I'). unfold key_rows, items_of. rewrite Hg.
+        apply memb_In; [apply Z_equiv|exact Hin]. }
+      rewrite R, Z.eqb_refl in X. discriminate.
+  Qed.
+
+  Lemma memb_keys_of_new : forall cells key, memb vals_eqb key (new_keys cols cells) = false ->
+    memb vals_eqb key (keys_of cols cells) = false.
+  Proof.
+    intros cells key H. unfold keys_of.
+    rewrite (memb_filter vals_eqb key_hashable); [now rewrite H|apply key_equiv|apply key_hashable_congr].
+  Qed.
+
+  Lemma unhashable_no_keys : forall cells, forallb key_hashable (new_keys cols cells) = false ->
+    keys_of cols cells = [].
+  Proof.
+    intros cells H. destruct (right_kind_cases cols) as [[_ Hu]|[_ Hu]].
+    - rewrite (keys_of_simple cols cells Hu). unfold new_keys in H. rewrite Hu in H. cbn in H.
+      rewrite andb_true_r in H. now rewrite H.
+    - rewrite (contains_keys_hashable cols cells Hu) in H. discriminate.
+  Qed.
+
+  Lemma inv_reset : forall k r s0, inv k -> inv (step_track cols colids k (SReset r s0)).
+  Proof.
+    intros [[t m] dd p] r s0 HI. simp_inv. destruct HI as [I [T [S C]]]. unfold cells_of in *.
+    destruct (tbl_get t r) as [d|] eqn:G; [|simp_inv; exact (conj I (conj T (conj S C)))].
+    destruct (row_cells d colids) as [cells|] eqn:RC; [|simp_inv; exact (conj I (conj T (conj S C)))].
+    simp_inv.
+    assert (Hkr : keys_of_row cols colids t r = keys_of cols cells).
+    { unfold keys_of_row, cells_of. now rewrite G, RC. }
+    unfold reset_sorted. destruct (forallb key_hashable (new_keys cols cells)) eqn:Hh.
+    - (* the sorted version for s0 is dropped from the sets of the record's keys *)
+      split; [apply lm_inv_same_sets; [exact I|apply same_sets_pop]|split; [exact T|split]]; cbn [w_idx w_tbl fwd bwd].
+      + exact S.
+      + intros key b' s rows Hg Hc. rewrite pop_each_get in Hg.
+        destruct (dget vals_eqb (bwd m) key) as [b|] eqn:G0; [|discriminate]. inversion Hg; subst b'; clear Hg.
+        cbn [items cache] in *.
+        assert (Hc0 : cache_get (cache b) s = Some rows).
+        { destruct (memb vals_eqb key (new_keys cols cells)); [|exact Hc].
+          rewrite cache_get_pop in Hc. destruct (spec_eqb s0 s); [discriminate|exact Hc]. }
+        destruct (C key b s rows G0 Hc0) as [Hs|[r0 [Hin Hex]]]; [left; exact Hs|right].
+        exists r0. split; [exact Hin|]. destruct Hex as [Hp|Hk]; [|right; exact Hk].
+        destruct (Z.eqb r r0 && spec_eqb s0 s) eqn:E; [|left; exact Hp]. right.
+        apply andb_true_iff in E. destruct E as [E1 E2]. apply Z.eqb_eq in E1. subst r0.
+        rewrite Hkr. apply memb_keys_of_new.
+        destruct (memb vals_eqb key (new_keys cols cells)) eqn:Hm; [|reflexivity].
+        rewrite cache_get_pop, E2 in Hc. discriminate.
+    - (* set() of an unhashable key raised: nothing changed; the record has no keys *)
+      split; [exact I|split; [exact T|split; [exact S|]]].
+      intros key b s rows Hg Hc.
+      destruct (C key b s rows Hg Hc) as [Hs|[r0 [Hin Hex]]]; [left; exact Hs|right].
+      exists r0. split; [exact Hin|]. destruct Hex as [Hp|Hk]; [|right; exact Hk].
+      destruct (Z.eqb r r0 && spec_eqb s0 s) eqn:E; [|left; exact Hp]. right.
+      apply andb_true_iff in E. destruct E as [E1 E2]. apply Z.eqb_eq in E1. subst r0.
+      rewrite Hkr, (unhashable_no_keys cells Hh). reflexivity.
+  Qed.
+
+  Lemma inv_lookup : forall k key0 s0, inv k -> inv (step_track cols colids k (SLookup key0 s0)).
+  Proof.
+    intros [[t m] dd p] key0 s0 HI. simp_inv. destruct HI as [I [T [S C]]].
+    unfold do_lookup.
+    destruct (key_hashable key0); cbn [negb]; [|exact (conj I (conj T (conj S C)))].
+    destruct (dget vals_eqb (bwd m) key0) as [b|] eqn:G; [|exact (conj I (conj T (conj S C)))].
+    destruct (cache_get (cache b) s0) as [l0|] eqn:Hc0; [exact (conj I (conj T (conj S C)))|].
+    destruct (sort_rows t s0 (items b)) as [l|] eqn:Hs; [|exact (conj I (conj T (conj S C)))].
+    cbn [fst w_idx w_tbl].
+    split; [apply lm_inv_same_sets; [exact I|apply same_sets_dset; exact G]|split; [exact T|split]];
+      cbn [w_idx w_tbl fwd bwd].
+    - exact S.
+    - intros key b' s rows Hg Hc. rewrite (dget_dset vals_eqb key_equiv) in Hg.
+      destruct (vals_eqb key0 key) eqn:E.
+      + inversion Hg; subst b'; clear Hg. cbn [items cache cache_get] in *.
+        destruct (spec_eqb s0 s) eqn:Es.
+        * apply spec_eqb_eq in Es. subst s. inversion Hc; subst. left. exact Hs.
+        * destruct (C key0 b s rows G Hc) as [Hs'|[r0 [Hin Hex]]]; [left; exact Hs'|right].
+          exists r0. split; [exact Hin|]. destruct Hex as [Hp|Hk]; [left; exact Hp|right].
+          rewrite <- Hk. symmetry. apply (memb_congr vals_eqb key_equiv). exact E.
+      + exact (C key b' s rows Hg Hc).
+  Qed.
+
+  Lemma inv_step : forall k s, inv k -> inv (step_track cols colids k s).
+  Proof.
+    intros k s H. destruct s.
+    - apply inv_write; exact H.
+    - apply inv_delete; exact H.
+    - apply inv_update; exact H.
+    - apply inv_unset; exact H.
+    - apply inv_reset; exact H.
+    - apply inv_lookup; exact H.
+  Qed.
+
+  Lemma inv_track0 : inv track0.
+  Proof.
+    split; [apply lm_inv_empty|split; [constructor|split]].
+    - intros r _ key. reflexivity.
+    - intros key b s rows Hg. discriminate.
+  Qed.
+
+  Theorem inv_run : forall tr, inv (run_track cols colids tr).
+  Proof.
+    intros tr. unfold run_track. generalize inv_track0. generalize track0.
+    induction tr as [|s tr IH]; intros k H; cbn; [exact H|]. apply IH. apply inv_step. exact H.
+  Qed.
+End Steps.
+
+(* ---- the theorems -------------------------------------------------------------------------- *)
+
+Lemma memb_Z_In : forall l r, memb Z.eqb r l = true <-> In r l.
+Proof.
+  induction l as [|y l IH]; intros r; cbn; [split; [discriminate|intros []]|].
+  destruct (Z.eqb_spec y r) as [->|N]; [split; auto|]. rewrite IH. split; [auto|intros [E|H]; [contradiction|exact H]].
+Qed.
+
+Lemma nodup_eq_NoDup : forall l, nodup_eq Z.eqb l -> NoDup l.
+Proof.
+  induction l as [|y l IH]; cbn; intros H; [constructor|]. destruct H as [H1 H2]. constructor; [|auto].
+  intros Hin. apply memb_Z_In in Hin. congruence.
+Qed.
+
+Section Theorems.
+  Variables (cols : list colspec) (colids : list str).
+
+  Lemma bin_rows : forall m key b r, lm_inv cols m -> dget vals_eqb (bwd m) key = Some b ->
+    (In r (items b) <-> mrel m r key = true).
+  Proof.
+    intros m key b r I G. rewrite <- (key_rows_mrel cols m r key I). unfold key_rows, items_of. rewrite G.
+    symmetry. apply memb_Z_In.
+  Qed.
+
+  Lemma bin_nodup : forall m key b, lm_inv cols m -> dget vals_eqb (bwd m) key = Some b -> NoDup (items b).
+  Proof.
+    intros m key b [_ [[Wn _] _]] G. apply nodup_eq_NoDup.
+    assert (E : items_of vals_eqb (bwd m) key = items b) by (unfold items_of; now rewrite G).
+    rewrite <- E. apply Wn.
+  Qed.
+
+  Theorem sorted_cache_valid_lemma : forall tr key b s rows,
+    let k := run_track cols colids tr in
+    let w := tk_world k in
+    dget vals_eqb (bwd (w_idx w)) key = Some b -> cache_get (cache b) s = Some rows ->
+    (forall r, In r (items b) -> tk_pending k r s = false /\ tk_dirty k r = false) ->
+    sort_rows (w_tbl w) s (items b) = Some rows.
+  Proof.
+    intros tr key b s rows k w G Hc Hclean.
+    destruct (inv_run cols colids tr) as [I [T [S C]]]. fold k in I, T, S, C. fold w in I, T.
+    destruct (C key b s rows G Hc) as [H|[r [Hin [Hp|Hk]]]]; [exact H| |].
+    - destruct (Hclean r Hin) as [X _]. congruence.
+    - destruct (Hclean r Hin) as [_ Hd]. rewrite <- (S r Hd key) in Hk.
+      apply (bin_rows (w_idx w) key b r I G) in Hin. unfold w in *. congruence.
+  Qed.
+
+  Lemma matching_rows_in : forall t key r, tbl_ok t ->
+    (In r (matching_rows cols colids key t) <-> memb vals_eqb key (keys_of_row cols colids t r) = true).
+  Proof.
+    intros t key r T. unfold matching_rows, keys_of_row, cells_of. rewrite in_map_iff. split.
+    - intros [[r0 d] [E H]]. cbn in E. subst r0. apply filter_In in H. destruct H as [H1 H2].
+      apply (tbl_get_filter t r d T) in H1. rewrite H1. cbn in H2. unfold row_matches in H2.
+      destruct (row_cells d colids); [exact H2|discriminate].
+    - destruct (tbl_get t r) as [d|] eqn:G; [|discriminate]. intros H. exists (r, d). split; [reflexivity|].
+      apply filter_In. split; [apply (tbl_get_filter t r d T); exact G|]. cbn. unfold row_matches.
+      destruct (row_cells d colids); [exact H|discriminate].
+  Qed.
+
+  Lemma matching_rows_nodup : forall t key, tbl_ok t -> NoDup (matching_rows cols colids key t).
+  Proof.
+    unfold tbl_ok, matching_rows. induction t as [|[r d] t IH]; intros key H; cbn; [constructor|].
+    inversion H as [|? ? Hn Hd]; subst. destruct (row_matches cols colids key d); cbn; [|auto].
+    constructor; [|auto]. intros Hin. apply Hn. apply in_map_iff in Hin. destruct Hin as [[r0 d0] [E Hin]].
+    apply filter_In in Hin. apply in_map_iff. exists (r0, d0). tauto.
+  Qed.
+
+  (* After any history in which every changed row was update_record'ed (or unset) and the resets for the
+     spec ran, a lookup returns the rows whose key set contains the key, sorted by the spec. *)
+  Theorem lookup_refines_filter_lemma : forall tr key s,
+    let k := run_track cols colids tr in
+    let w := tk_world k in
+    (forall r, tk_dirty k r = false) ->
+    (forall r, tk_pending k r s = false) ->
+    key_hashable key = true ->
+    rows_sortable (w_tbl w) s (matching_rows cols colids key (w_tbl w)) ->
+    exists l, spec_lookup cols colids (w_tbl w) key s = Some l /\
+              snd (do_lookup (w_idx w) (w_tbl w) key s) = LRows l.
+  Proof.
+    intros tr key s k w Hd Hp Hh Hsort.
+    destruct (inv_run cols colids tr) as [I [T [S C]]]. fold k in I, T, S, C. fold w in I, T.
+    unfold spec_lookup, do_lookup. rewrite Hh. cbn [negb].
+    set (M := matching_rows cols colids key (w_tbl w)) in *.
+    destruct (sort_rows_sorted_perm (w_tbl w) s M Hsort) as [l [El _]]. exists l. split; [exact El|].
+    assert (Hmem : forall r, In r M <-> mrel (w_idx w) r key = true).
+    { intros r. unfold M. rewrite (matching_rows_in (w_tbl w) key r T). unfold w. now rewrite (S r (Hd r) key). }
+    destruct (dget vals_eqb (bwd (w_idx w)) key) as [b|] eqn:G.
+    - assert (HP : Permutation M (items b)).
+      { apply NoDup_Permutation; [apply matching_rows_nodup; exact T|eapply bin_nodup; eauto|].
+        intros r. rewrite Hmem. symmetry. eapply bin_rows; eauto. }
+      assert (Hsb : sort_rows (w_tbl w) s (items b) = Some l).
+      { rewrite <- El. symmetry. apply sort_rows_perm_invariant; auto. apply matching_rows_nodup; exact T. }
+      destruct (cache_get (cache b) s) as [rows|] eqn:Hc.
+      + cbn [snd]. f_equal.
+        pose proof (sorted_cache_valid_lemma tr key b s rows G Hc) as V. fold k in V. fold w in V.
+        rewrite V in Hsb by (intros r _; split; [apply Hp|apply Hd]). congruence.
+      + rewrite Hsb. reflexivity.
+    - cbn [snd]. f_equal. destruct M as [|r M'] eqn:EM.
+      + cbn in El. inversion El. reflexivity.
+      + exfalso. assert (Hr : mrel (w_idx w) r key = true) by (apply Hmem; left; reflexivity).
+        rewrite <- (key_rows_mrel cols (w_idx w) r key I) in Hr. unfold key_rows, items_of in Hr.
+        rewrite G in Hr. discriminate.
+  Qed.
+End Theorems.
+
+(* ---- only rows that a history touches can be dirty or pending (used to discharge the hypotheses of the
+   theorems on concrete histories) -------------------------------------------------------------- *)
+
+Definition step_row (s : step) : list Z :=
+  match s with
+  | SWrite r _ | SDelete r | SUpdate r | SUnset r | SReset r _ => [r]
+  | SLookup _ _ => []
+  end.
+
+Lemma upd_true {A} : forall (f : Z -> A) r v r', upd f r v r' <> f r' -> r = r'.
+Proof. intros f r v r' H. unfold upd in H. destruct (Z.eqb_spec r r'); [assumption|contradiction]. Qed.
+
+Lemma track_support : forall cols colids tr k r,
+  let k' := fold_left (step_track cols colids) tr k in
+  (tk_dirty k' r = true -> tk_dirty k r = true \/ In r (flat_map step_row tr)) /\
+  (forall s, tk_pending k' r s = true -> tk_pending k r s = true \/ In r (flat_map step_row tr)).
+Proof.
+  induction tr as [|st tr IH]; intros k r; cbn [fold_left flat_map]; [split; auto|].
+  destruct (IH (step_track cols colids k st) r) as [H1 H2]. split.
+  - intros H. destruct (H1 H) as [H'|H']; [|right; apply in_or_app; auto].
+    destruct (Z.eq_dec (hd 0 (step_row st)) r) as [E|N].
+    + destruct st; cbn in E; subst; try (right; left; reflexivity). left. exact H'.
+    + left. destruct st; cbn in *; unfold upd in *;
+        try (destruct (cells_of colids (w_tbl (tk_world k)) r0); cbn in * );
+        try (destruct (Z.eqb_spec r0 r); [contradiction|]); auto.
+  - intros s H. destruct (H2 s H) as [H'|H']; [|right; apply in_or_app; auto].
+    destruct (Z.eq_dec (hd 0 (step_row st)) r) as [E|N].
+    + destruct st; cbn in E; subst; try (right; left; reflexivity). left. exact H'.
+    + left. destruct st; cbn in *; unfold upd in *;
+        try (destruct (cells_of colids (w_tbl (tk_world k)) r0); cbn in * );
+        try (destruct (Z.eqb_spec r0 r); [contradiction|]); cbn in *; auto.
+Qed.
+
+Lemma clean_outside : forall cols colids tr r, ~ In r (flat_map step_row tr) ->
+  tk_dirty (run_track cols colids tr) r = false /\ forall s, tk_pending (run_track cols colids tr) r s = false.
+Proof.
+  intros cols colids tr r N. destruct (track_support cols colids tr track0 r) as [H1 H2]. split.
+  - destruct (tk_dirty (run_track cols colids tr) r) eqn:E; [|reflexivity].
+    destruct (H1 E) as [X|X]; [discriminate|contradiction].
+  - intros s. destruct (tk_pending (run_track cols colids tr) r s) eqn:E; [|reflexivity].
+    destruct (H2 s E) as [X|X]; [discriminate|contradiction].
+Qed.
